@@ -199,6 +199,11 @@ func (d *Describer) val(v ssa.Value, depth int) string {
 				return s
 			}
 		}
+		if isOverwritingMutator(&x.Call) {
+			// the value IS the result of this operation; what the same scratch object receives later
+			// are other values with their own descriptors
+			return d.call(&x.Call, depth)
+		}
 		return d.call(&x.Call, depth) + d.objOps(x, depth)
 	case *ssa.MakeSlice:
 		if d.MakeLen {
@@ -376,6 +381,15 @@ func fieldSetOnce(a *ssa.Alloc, k int) ssa.Value {
 		}
 	}
 	return v
+}
+
+// isOverwritingMutator: an interface call of an overwriting mutator of kyber.Point / kyber.Scalar.
+func isOverwritingMutator(c *ssa.CallCommon) bool {
+	if !c.IsInvoke() || !overwriting[c.Method.Name()] {
+		return false
+	}
+	ts := types.TypeString(c.Value.Type(), nil)
+	return ts == core.ModPath+".Point" || ts == core.ModPath+".Scalar"
 }
 
 // copiedFrom: the alloc is written by exactly one whole-value store and never
